@@ -157,7 +157,7 @@ func checkTypeExists(p *Prog, r *Report, f *ssa.Function) {
 			return
 		}
 		n++
-		r.decide(mustPassEdge(f, ret.Block(), okEdge), "C05.type-exists", funcName(f)+":"+p.describe(ret), p.pos(ret.Pos()),
+		r.decide(mustPassEdge(f, ret.Block(), throughValidators(okEdge)), "C05.type-exists", funcName(f)+":"+p.describe(ret), p.pos(ret.Pos()),
 			"every path to this successful return established that the type exists",
 			"a successful return of "+funcName(f)+" is reachable without any test that the payload's type exists in the schema: an unknown type is accepted and comes back with a zero Type")
 	})
@@ -170,7 +170,39 @@ func isNameOfGetType(v ssa.Value) bool {
 	if !ok || f != "Name" {
 		return false
 	}
-	fromGetType := func(x ssa.Value) bool {
+	var fromGetType func(x ssa.Value) bool
+	fromGetType = func(x ssa.Value) bool {
+		// a result of a decode helper whose successful returns hand out the
+		// GetType result at that position
+		if ex, isEx := x.(*ssa.Extract); isEx {
+			if hc, isCall := ex.Tuple.(*ssa.Call); isCall {
+				if g := hc.Common().StaticCallee(); g != nil && g.Blocks != nil && smallHelper(g) {
+					n := 0
+					for _, b := range g.Blocks {
+						ret, ok := b.Instrs[len(b.Instrs)-1].(*ssa.Return)
+						if !ok || len(ret.Results) <= ex.Index {
+							continue
+						}
+						if last := ret.Results[len(ret.Results)-1]; isErrorType(last.Type()) && !isNilConst(last) {
+							continue
+						}
+						n++
+						rv := ret.Results[ex.Index]
+						if ld, ok := rv.(*ssa.UnOp); ok && ld.Op == token.MUL {
+							if al, ok := ld.X.(*ssa.Alloc); ok {
+								if sv := singleStore(al); sv != nil {
+									rv = sv
+								}
+							}
+						}
+						if !fromGetType(rv) {
+							return false
+						}
+					}
+					return n > 0
+				}
+			}
+		}
 		c, _ := callOf(x)
 		if c == nil {
 			return false
